@@ -11,12 +11,12 @@ ORACLE = "jsight-schema-core answers (schema extents, checks, examples) are repl
 
 PROPS = {
     "C01": dict(module="JsightVerif.Props.C01",
-        ops=[op("proj", 15000, 1000000), op("scan", 20000, 2000000), op("build", 4000, 200000)],
+        ops=[op("proj", 15000, 1000000), op("scan", 20000, 2000000), op("build", 4000, 200000), op("cat", 6000, 300000)],
         assumptions=["Go runtime stack/memory limits are outside the model; crash-isolated workers observe them", ORACLE]),
-    "C02": dict(module="JsightVerif.Props.C02", ops=[op("model", 3000, 100000)], assumptions=[ORACLE]),
-    "C03": dict(module="JsightVerif.Props.C03", ops=[op("fault", 4000, 200000)], assumptions=[ORACLE]),
+    "C02": dict(module="JsightVerif.Props.C02", ops=[op("cat", 8000, 400000), op("model", 3000, 100000)], assumptions=[ORACLE]),
+    "C03": dict(module="JsightVerif.Props.C03", ops=[op("fault", 4000, 200000), op("cat", 8000, 400000)], assumptions=[ORACLE]),
     "C04": dict(module="JsightVerif.Props.C04", ops=[op("build", 5000, 300000)], assumptions=["encoding/json escapes and emits UTF-8 faithfully", ORACLE]),
-    "C05": dict(module="JsightVerif.Props.C05", ops=[op("build", 5000, 300000), op("model", 1500, 50000)], assumptions=[ORACLE]),
+    "C05": dict(module="JsightVerif.Props.C05", ops=[op("build", 5000, 300000), op("model", 1500, 50000), op("cat", 6000, 300000)], assumptions=[ORACLE]),
     "C06": dict(module="JsightVerif.Props.C06", ops=[op("build", 4000, 100000)],
         assumptions=["A_envset: jsight-schema-core results depend on the set of declared types/rules, not on the order they are added", ORACLE]),
     "C07": dict(module="JsightVerif.Props.C07", ops=[op("proj", 20000, 500000), op("name", 3000, 0), op("build", 3000, 100000)],
@@ -24,7 +24,7 @@ PROPS = {
     "C08": dict(module="JsightVerif.Props.C08", ops=[op("layout", 3000, 60000), op("scan", 10000, 200000)],
         assumptions=["A_nl: schema extents and contents are invariant under line-ending changes inside bodies (dependency)", ORACLE]),
     "C09": dict(module="JsightVerif.Props.C09", ops=[op("split", 3000, 100000), op("proj", 8000, 200000)], assumptions=[ORACLE]),
-    "C10": dict(module="JsightVerif.Props.C10", ops=[op("paste", 3000, 100000)], assumptions=[ORACLE]),
+    "C10": dict(module="JsightVerif.Props.C10", ops=[op("paste", 3000, 100000), op("cat", 8000, 400000)], assumptions=[ORACLE]),
     "C11": dict(module="JsightVerif.Props.C11", ops=[op("ctx", 8000, 0), op("proj", 10000, 300000)],
         assumptions=["reference context table = pinned transcription of the baseline table (no offline copy of the JSight 0.3 specification)"]),
     "C12": dict(module="JsightVerif.Props.C12", ops=[op("scan", 40000, 2000000)], assumptions=["A_len: " + ORACLE]),
@@ -32,12 +32,12 @@ PROPS = {
         assumptions=["keyword list regenerated from directive/enumeration.go; the harness pins the 30 JSight 0.3 keywords independently"]),
     "C14": dict(module="JsightVerif.Props.C14", ops=[op("name", 6000, 0), op("proj", 10000, 300000)],
         assumptions=["path/filepath.Join/Dir/Clean and os.Stat/ReadFile are trusted; the model's cleanSegs is compared with them on every INCLUDE of every case"]),
-    "C15": dict(module="JsightVerif.Props.C15", ops=[op("order", 3000, 100000)],
+    "C15": dict(module="JsightVerif.Props.C15", ops=[op("order", 3000, 100000), op("cat", 5000, 200000)],
         assumptions=["A_envset (two-phase user type compilation happens inside jsight-schema-core)", ORACLE]),
     "C16": dict(module="JsightVerif.Props.C16", ops=[op("access", 2500, 30000), op("build", 3000, 100000)], assumptions=[ORACLE]),
     "C17": dict(module="JsightVerif.Props.C17", ops=[op("build", 5000, 300000)],
         assumptions=["schema objects are produced by jsight-schema-core/openapi (opaque); only the skeleton is modelled"]),
     "C18": dict(module="JsightVerif.Props.C18", ops=[op("conc", 150, 1000, kind="conc", batches_quick=3, batches_thorough=10)],
         assumptions=["data races as the Go memory model defines them and shared state inside jsight-schema-core cannot be exhibited by a theorem: the race-detector run is part of the check (partial by nature)"]),
-    "C19": dict(module="JsightVerif.Props.C19", ops=[op("ban", 4000, 200000)], assumptions=[ORACLE]),
+    "C19": dict(module="JsightVerif.Props.C19", ops=[op("ban", 4000, 200000), op("cat", 5000, 200000)], assumptions=[ORACLE]),
 }
